@@ -20,7 +20,7 @@ func propC08() *Property {
 	}
 	return &Property{
 		ID:          "C08",
-		Explanation: "Static lock-state, effect and call-graph analysis of the whole program. Decided: (R1) every access to ui.State / ui.Page fields, every call of the output callback and every write of a markup render cache happens with State.m held on every path (lock-state must-dataflow with caller-inherited states resolved over the VTA call graph; go targets and exported entry points start unlocked); (R2) the unlocked reads in the loader goroutines are covered by the in-flight flag protocol; (R3) every Lock is released on every return path except error returns of Subcommand; (R4) no synchronous path re-acquires the non-reentrant mutex; (R5) fan-out goroutines joined by a WaitGroup have pairwise disjoint write sets, Add/Done/Wait are balanced, captured variables of closures made elsewhere and handed over (callbacks stored in fields) counting as cells shared by all invocations; (R6) shared documents, configuration and package-level state are read-only after initialisation; (R7) every go statement is inventoried. (R8) every store into a field of a pub item type (Post, Actor, Activity, Collection, Link, Failure) targets the object that the enclosing constructor has just allocated: items are shared by pages, loader goroutines (outside State.m) and the renderer, which is safe only because nothing writes them after construction. Not decided: liveness under real schedulers, races inside dependencies (lru, singleflight are trusted as internally synchronised), the deliberate lock hold on a failing sub-command.",
+		Explanation: "Static lock-state, effect and call-graph analysis of the whole program. Decided: (R1) every access to ui.State / ui.Page fields, every call of the output callback and every write of a markup render cache happens with State.m held on every path (lock-state must-dataflow with caller-inherited states resolved over the VTA call graph; go targets and exported entry points start unlocked); (R2) the unlocked reads in the loader goroutines are covered by the in-flight flag protocol; (R3) every Lock is released on every return path except error returns of Subcommand; (R4) no synchronous path re-acquires the non-reentrant mutex; (R5) fan-out goroutines joined by a WaitGroup have pairwise disjoint write sets, Add/Done/Wait are balanced, captured variables of closures made elsewhere and handed over (callbacks stored in fields) counting as cells shared by all invocations; (R6) shared documents, configuration and package-level state are read-only after initialisation; (R7) every go statement is inventoried. (R8) every store into a field of a pub item type (Post, Actor, Activity, Collection, Link, Failure) targets the object that the enclosing constructor has just allocated: items are shared by pages, loader goroutines (outside State.m) and the renderer, which is safe only because nothing writes them after construction. (R9) the in-flight flags of ui.Page pair up: every flag is set right before the goroutine that clears it is started, and that goroutine clears the flag of, and writes fields and feed of, the very page value it was started for (SSA identity through the closure binding), never the page that is current when the load completes. Not decided: liveness under real schedulers, races inside dependencies (lru, singleflight are trusted as internally synchronised), the deliberate lock hold on a failing sub-command.",
 		Assumptions: []string{
 			"go/types, go/ssa and the VTA call graph of x/tools v0.29.0 are sound for the call edges used (no reflection/unsafe in servitor)",
 			"sync.Mutex, sync.WaitGroup, lru.Cache and singleflight.Group behave as documented",
@@ -28,13 +28,14 @@ func propC08() *Property {
 		},
 		Rules: []Rule{
 			{ID: "C08.R1", Title: "guarded-by: UI state, output callback and render caches only with State.m held", Floor: 153, Run: func(c *Ctx) { c08R1(c, get(c.P)) }},
-			{ID: "C08.R2", Title: "in-flight flag protocol covers the loaders' unlocked reads", Floor: 1, Run: func(c *Ctx) { c08R2(c, get(c.P)) }},
+			{ID: "C08.R2", Title: "in-flight flag protocol covers the loaders' unlocked reads", Floor: 0 /* its instances are reads that need an excuse: none is the best case; the loaders themselves are pinned by R9's floor */, Run: func(c *Ctx) { c08R2(c, get(c.P)) }},
 			{ID: "C08.R3", Title: "lock pairing on every return path", Floor: 19, Run: func(c *Ctx) { c08R3(c, get(c.P)) }},
 			{ID: "C08.R4", Title: "no re-acquisition of the non-reentrant mutex", Floor: 62, Run: func(c *Ctx) { c08R4(c, get(c.P)) }},
 			{ID: "C08.R5", Title: "fan-out goroutines: disjoint write sets, balanced WaitGroup", Floor: 40, Run: c08R5},
 			{ID: "C08.R6", Title: "shared documents, configuration and package state are read-only", Floor: 28, Run: c08R6},
 			{ID: "C08.R7", Title: "goroutine inventory", Floor: 12, Run: func(c *Ctx) { c08R7(c, get(c.P)) }},
 			{ID: "C08.R8", Title: "pub items are written only while they are being constructed", Floor: 20, Run: c08R8},
+			{ID: "C08.R9", Title: "a background load is delivered to the page it was started for (in-flight flag pairing)", Floor: 8, Run: c08R9},
 		},
 	}
 }
